@@ -86,6 +86,7 @@ class Editor:
         self.lost = []      # assignments that did not take effect
         self.must = {}      # (id(obj), attr) -> unique token that has to show up in db.dbml from now on
         self.keep = []      # keeps edited objects alive so ids stay unique
+        self.once = []      # tokens written into ONE free-text slot in place: they may show up in db.dbml at most once
 
     def tok(self, p='zz'):
         self.n += 1
@@ -101,15 +102,21 @@ class Editor:
         if attr == 'text' and getattr(obj, 'parent', None) is not None:
             self.must.pop((id(obj.parent), 'note'), None)
         setattr(obj, attr, val)
+        if attr == 'text' and isinstance(val, str) and re.search(r'E\d+q', val):
+            self.once.append(val)
         got = getattr(obj, attr)
         if not (got is val or (type(got) is type(val) and got == val)):
             self.lost.append(f'{type(obj).__name__}.{attr} = {val!r} reads back as {got!r}')
 
     def add_twin_index(self, t):
         """a second index that differs from an existing one only in its comment"""
-        from pydbml.classes import Index
+        from pydbml.classes import Index, Expression
         src = self.rng.choice(t.indexes)
-        t.add_index(Index(list(src.subjects), name=src.name, unique=src.unique, type=src.type, pk=src.pk,
+        for x in src.subjects:      # the twin repeats the source's texts on purpose
+            if isinstance(x, Expression) and x.text in self.once:
+                self.once.remove(x.text)
+        # expression subjects are copied: sharing one Expression object between two indexes would be the editor's own aliasing
+        t.add_index(Index([Expression(x.text) if isinstance(x, Expression) else x for x in src.subjects], name=src.name, unique=src.unique, type=src.type, pk=src.pk,
                           note=src.note.text if src.note else None, comment=self.tok('twin index ')))
 
     def remove_index_by_object(self, t):
@@ -135,7 +142,19 @@ class Editor:
         else:
             newt = self.tok('expr_') + '()'
             c.default.text = newt
+            self.once.append(newt)
             self.expect_token(c, 'default', newt)
+
+    def index_expr_inplace(self, t):
+        from pydbml.classes import Expression
+        for ix in t.indexes:
+            for sbj in ix.subjects:
+                if isinstance(sbj, Expression):
+                    newt = self.tok('ixexpr_') + '()'
+                    sbj.text = newt
+                    self.once.append(newt)
+                    return
+        raise LookupError('no expression subject')
 
     def twin_default(self, c):
         """assign a default that compares == to the current one but is a different value for rendering"""
@@ -195,6 +214,7 @@ class Editor:
                 out.append(('remove-index', lambda: t.delete_index(rng.randrange(len(t.indexes)))))
                 out.append(('add-twin-index', lambda: self.add_twin_index(t)))
                 out.append(('remove-index-by-object', lambda: self.remove_index_by_object(t)))
+                out.append(('index-expression-inplace', lambda: self.index_expr_inplace(t)))
                 ix = rng.choice(t.indexes)
                 out += [('index-name', lambda: self.set(ix, 'name', rng.choice([None, self.tok('ixn')]))),
                         ('index-flags', lambda: (self.set(ix, 'unique', not ix.unique), self.set(ix, 'type', rng.choice([None, 'gin', 'brin'])))),
@@ -299,6 +319,12 @@ def run_history(sh, db, origin, rng, tracer, suite='random', maxlen=12, case_see
             for (oid, attr), tokn in ed.must.items():
                 if tokn not in d_:
                     sh.violation('stale', f'new-value-missing:{attr}:after-{kind}', f'after {steps}: the assigned {attr} {tokn!r} does not show up in db.dbml', case, {'edit': kind})
+        if isinstance(d_, str):
+            for tokn in ed.once:
+                if d_.count(tokn) > 1:
+                    sh.violation('stale', f'inplace-edit-shows-up-elsewhere:after-{kind}',
+                                 f'after {steps}: {tokn!r} was written into one text in place and occurs {d_.count(tokn)} times in db.dbml', case, {'edit': kind})
+            sh.count('obs.once_tokens_checked', len(ed.once))
         for tokn in ed.stale:
             for key in ('db.dbml', 'db.sql'):
                 v = live.get(key)
@@ -316,6 +342,22 @@ def one_case(sh, case_seed, tracer):
     for t in doc.tables:
         if t.alias == t.name:
             t.alias = None          # the staleness scan needs every name token to belong to one attribute only
+    if rng.random() < 0.25:
+        # equal texts in several slots (the same expression as default of several columns and as an index subject,
+        # the same note text on several elements): an in-place edit of one of them is an edit of that one only
+        ex = rng.choice(['now()', 'uuid_generate_v4()'])
+        nt = 'same note'
+        for t in doc.tables:
+            for c in t.columns:
+                if c.default is None and c.type.kind != 'enum' and rng.random() < 0.5:
+                    c.default = am.Default('expr', ex)
+                if rng.random() < 0.4:
+                    c.note = nt
+            if rng.random() < 0.5:
+                t.note = nt
+            if t.columns and rng.random() < 0.6:
+                t.indexes.append(am.Index(subjects=[('expr', ex)]))
+        sh.count('obs.docs.equal-texts')
     tracer.phase = 'build'
     if rng.random() < 0.5:
         db, err = parse(surface.render(doc, case_seed), allow_properties=doc.allow_properties)
